@@ -2,6 +2,8 @@
    stdin (line oriented; every index / distance is a decimal integer):
      CASE <N>                     followed by N lines of N integers: the distance table d
      METRIC                       -> "M <0|1>"                         metric_b d N
+     F <m> <k> <n>                followed by n lines "r <q> : j j j" (the harness's own output format)
+                                  -> "FQ <m> <k> <number of rows failing is_knn_b> <n>"
      ROWS <k> <n>                 followed by n lines "<q> : j j j"    (an implementation's output rows)
                                   -> n lines "R <q> <is_knn_b> | <dists_sorted>"
      NTH <k> <q> : j j j ...      observed std::nth_element result of the brute-force row q (repaired layout)
@@ -136,6 +138,22 @@ let () =
              Printf.printf "S %d | %s | %s | %s\n" q (zlo (vp_search_dists dfun t zq (S k))) (zlo row)
                (match row with None -> "?" | Some r -> zl (dists_sorted dfun zq r))
            done
+         | ["F"; m; k; n] ->
+           (* rows in the harness's own output format ("r <q> : j j j"); answers with one summary line *)
+           let kk = nat_of_int (ios k) in
+           let nn = nat_of_int !n_cur in
+           let nbad = ref 0 in
+           List.iter (fun l ->
+               match toks_of l with
+               | "r" :: q :: ":" :: rest ->
+                 (try
+                    let q = z_of_int (ios q) in
+                    let row = List.map (fun s -> z_of_int (ios s)) rest in
+                    if not (is_knn_b dfun nn q kk row) then incr nbad
+                  with Bad _ -> incr nbad)
+               | _ -> incr nbad)
+             (read_lines (ios n));
+           Printf.printf "FQ %s %s %d %s\n" m k !nbad n
          | ["CAND"; k; n] ->
            let k = nat_of_int (ios k) in
            let nn = nat_of_int !n_cur in
